@@ -54,7 +54,7 @@ func libGoroutines() []string {
 	return out
 }
 
-var c20Endings = []string{"Close", "CloseNow", "peer-close-then-Close", "protocol-error-then-CloseNow", "ctx-expiry-then-Close", "cut-eof-then-Close", "cut-err-then-CloseNow", "silent-peer-Close", "peer-close-then-CloseNow", "closeread-data-then-Close", "closeread-partial-data-stall-then-CloseNow", "closeread-partial-data-stall-then-Close", "write-error-then-CloseNow", "write-error-then-Close", "Close-unsendable-code", "Close-oversize-reason"}
+var c20Endings = []string{"Close", "CloseNow", "peer-close-then-Close", "protocol-error-then-CloseNow", "ctx-expiry-then-Close", "cut-eof-then-Close", "cut-err-then-CloseNow", "silent-peer-Close", "peer-close-then-CloseNow", "closeread-data-then-Close", "closeread-partial-data-stall-then-CloseNow", "closeread-partial-data-stall-then-Close", "write-error-then-CloseNow", "write-error-then-Close", "Close-unsendable-code", "Close-oversize-reason", "Close-and-CloseNow-together-peer-slow-and-silent"}
 
 func runC20(r *Run) {
 	t := r.Tape
@@ -168,7 +168,7 @@ func runC20(r *Run) {
 			c, peer = rc.C, rc.Peer
 			openLib += mine
 			// cooperative raw peer: answers pings, echoes Close
-			peerEcho := p.ending != 7
+			peerEcho := p.ending != 7 && p.ending != 16
 			r.S.Go(who+".peer", func() {
 				seen := 0
 				for {
@@ -310,6 +310,31 @@ func runC20(r *Run) {
 			} else {
 				cerr = c.Close(websocket.StatusNormalClosure, "done")
 			}
+		case 16:
+			if p.pair {
+				cerr = c.Close(websocket.StatusNormalClosure, "done")
+				break
+			}
+			// The peer takes the Close frame off the wire only after 3 s and never
+			// answers; a second goroutine calls CloseNow while that Close is under way.
+			held := true
+			peer.Hold = func() bool { return held }
+			rc.Lib.Out().Cap = rc.Lib.Out().Buffered()
+			rc.Lib.Out().HardCap = true
+			time.AfterFunc(3*time.Second, func() {
+				held = false
+				rc.Lib.Out().Cap = 1 << 30
+				r.S.Kick()
+			})
+			firstDone := false
+			r.S.Go(fmt.Sprintf("%s.closer%d", who, idx), func() {
+				c.Close(websocket.StatusNormalClosure, "done")
+				firstDone = true
+			})
+			r.S.Sleep(500 * time.Millisecond)
+			cerr = c.CloseNow()
+			r.S.Count("probe.closenow-during-slow-close")
+			_ = firstDone
 		case 14:
 			cerr = c.Close(websocket.StatusCode([]int{1005 + 1, 999, 5000, 1015}[idx%4]), "invalid code")
 		case 15:
